@@ -25,7 +25,7 @@ TNext == \/ (E.e = "code" /\ Step(SetCodeOk(E.code, E.rs, E.reason) \/ SetCodeRe
          \/ (E.e = "hdr" /\ Step(SetHeaderOk(E.name, E.val, E.txt) \/ SetHeaderRefused(E.name, E.val, E.txt)))
          \/ (E.e = "cookie" /\ Step(AddCookieOk(E.k, E.v, E.attrs, E.flags, E.txt) \/ AddCookieRefused(E.k, E.v, E.attrs, E.flags, E.txt)))
          \/ (E.e = "write" /\ Step(Write(E.data)))
-         \/ (E.e = "finish" /\ Step(Finish(E.wire, E.closed)))
+         \/ (E.e = "finish" /\ \E w \in {E.wire} : Step(Finish(w, E.closed)))
 
 TSpec == TInit /\ [][l <= Len(T.ev) /\ TNext]_<<vars, tid, l>>
 
